@@ -20,6 +20,7 @@ import (
 	"github.com/nuetzliches/hookaido/internal/config"
 	"github.com/nuetzliches/hookaido/internal/httpheader"
 	"github.com/nuetzliches/hookaido/internal/queue"
+	"github.com/nuetzliches/hookaido/internal/verifhook"
 )
 
 const (
@@ -2250,6 +2251,7 @@ func (s *Server) handleMessagesPublish(w http.ResponseWriter, r *http.Request) {
 			s.writePublishError(w, http.StatusServiceUnavailable, publishCodeStoreUnavailable, "queue store is unavailable", -1, false)
 			return
 		}
+		verifhook.Point("admin.publish.enqueued")
 		published = n
 		for _, env := range prepared {
 			if auditRoute == "" {
@@ -3441,6 +3443,7 @@ func (s *Server) handleApplicationEndpointPublish(w http.ResponseWriter, r *http
 			s.writePublishError(w, http.StatusServiceUnavailable, publishCodeStoreUnavailable, "queue store is unavailable", -1, true)
 			return
 		}
+		verifhook.Point("admin.publish.enqueued")
 		published = n
 		for _, env := range prepared {
 			if auditTarget == "" {
